@@ -273,10 +273,11 @@ def _caller_try(m, dest, target):
         return None
     x = t["dest"]
     y = m["blocks"][t["t"]]
-    if len(y["s"]) != 1 or y["s"][0].get("r", {}).get("k") != "discr" or y["s"][0]["r"]["p"] != x:
+    ds = [st for st in y["s"] if st.get("r", {}).get("k") == "discr" and st["r"]["p"] == x]
+    if len(ds) != 1 or any(not _passthrough_stmt(st, -1) for st in y["s"]):        # drop-flag stores may sit beside the discriminant read
         return None
     sw = y["t"]
-    if sw["k"] != "switch" or _local_of(sw["d"]) != y["s"][0]["p"]:
+    if sw["k"] != "switch" or _local_of(sw["d"]) != ds[0]["p"]:
         return None
     tab = dict((v, blk) for v, blk in sw["ts"])
     if 0 in tab and 1 in tab:
